@@ -92,7 +92,9 @@ Ops(h) == {[op |-> "none"], [op |-> "refrag"]} \cup
           {[op |-> "trunc", k |-> i, how |-> "cut" \o ToString(n)] : i \in {j \in 1..Len(h) : h[j] \in {"CH", "SH", "SKE", "CREQ", "CKE", "CV"}}, n \in 0..CutMax} \cup
           {[op |-> "helloext", k |-> 1, v |-> t, how |-> w] : t \in ExtTypes, w \in ExtShapes} \cup
           {[op |-> "selfmal", k |-> i, how |-> w] : i \in {j \in 1..Len(h) : h[j] \in {"CKE", "SKE"}}, w \in SelfMals} \cup
-          (IF h[1] = "SH" THEN {[op |-> "srvscript", k |-> 3, how |-> w] : w \in {"ecdhe_curve99", "ecdhe_curve23", "ecdhe_curve24", "noccs_plainfin", "reneg_honest", "reneg_noccs"}} ELSE {}) \cup
+          (IF h[1] = "SH" THEN {[op |-> "srvscript", k |-> 3, how |-> w] : w \in {"ecdhe_curve99", "ecdhe_curve23", "ecdhe_curve24", "noccs_plainfin", "reneg_honest", "reneg_noccs",
+                                                                                    \* a consistent server whose ServerHello names a version the client did not offer
+                                                                                    "shvers_0304", "shvers_0305", "shvers_7f1c", "shvers_0302", "shvers_0300", "shvers_0101"}} ELSE {}) \cup
           (IF h[1] = "CH" THEN UNION {{[op |-> "script", k |-> 1, how |-> w, policy |-> p] : p \in {q \in Policies : w \in {"omit_cv", "dup_cv"} => q # "none"}} : w \in Scripts} \cup
                                {[op |-> "chvers", k |-> 1, v |-> v] : v \in Versions} \cup
                                {[op |-> "selfvers", k |-> 1, v |-> v] : v \in Versions \cup {258, 511, 767}} \cup
